@@ -237,6 +237,10 @@ def c10(work, tier, seed, replay):
     rep.cov["exhaustive"] = True
     for e in posts[:2]:
         rep.sample(e)
+    # every request is answered for ITSELF also when requests overlap (concurrent streams on the bastion connection): status per request as the table
+    # says for some order of the overlapping requests, and a 200 body that verifies over the text THIS request submitted
+    import checks_ops
+    checks_ops.prod_conc_part(work, rep, tier, seed, "C10", "the endpoint's answer belongs to the request it answers")
     rep.assumptions += ["the overlay shim builds the in-process handler exactly as FeedBastion does; a sample of the same runs goes end to end through the exported FeedBastion over TLS 1.3 + HTTP/2",
                         "monotonic clock for the rate-limit bounds"]
     return rep.finish()
